@@ -71,6 +71,7 @@ impl Node {
     //@end
 }
 
+//@auto_helpers src/dir.rs rules=R22
 //@lits
 //@canary_false
 } // verus!
